@@ -48,11 +48,20 @@ static thread_local int t_held = 0;
 static thread_local std::vector<Ev> *t_log = nullptr;
 static std::atomic<long> g_locks{0}, g_callbacks{0};
 
+static std::atomic<uint64_t> g_tid_ctr{0};
+static thread_local uint64_t t_id = ++g_tid_ctr;
+
 struct IMutex {
 	std::mutex m;                      // a real mutex, so that TSan sees the synchronisation the pool relies on
+	std::atomic<uint64_t> owner{0};    // instrumentation only (relaxed): detects a thread re-locking its own mutex
 	void lock() {
 		if(t_held != 0) viol("two-locks", "lock() while the thread already holds %d pool mutex(es)", t_held);
+		if(owner.load(std::memory_order_relaxed) == t_id) {
+			viol("deadlock", "lock() of a pool mutex the calling thread already holds (self-deadlock; lock leaked by an earlier call?)");
+			throw vh::AssertStop{"self-deadlock on a pool mutex"};
+		}
 		m.lock();
+		owner.store(t_id, std::memory_order_relaxed);
 		t_held++;
 		g_locks.fetch_add(1, std::memory_order_relaxed);
 		if(t_log) t_log->push_back({'L', this, nullptr});
@@ -60,6 +69,7 @@ struct IMutex {
 	void unlock() {
 		if(t_log) t_log->push_back({'U', this, nullptr});
 		t_held--;
+		owner.store(0, std::memory_order_relaxed);
 		m.unlock();
 	}
 };
@@ -299,6 +309,7 @@ template<typename Pol> static void run_mt(const vh::Lines &ls, int nt) {
 	for(size_t li = 1; li < ls.size(); li++) {
 		auto t = vh::split(ls[li]);
 		const std::string &o = t[0];
+		arena_reset();                      // every scenario runs on a fresh pool in a fresh arena
 		Pol pol;
 		Pool *pool = new Pool(pol);
 		std::vector<std::vector<Blk>> lives(nt);
@@ -366,7 +377,7 @@ template<typename Pol> static void run_mt(const vh::Lines &ls, int nt) {
 				bar.wait();
 				for(int i = 0; i < k; i++) {
 					void *p = pool->allocate(n);
-					if(!p) { viol("overlap", "empty: allocate(%zu) returned null", n); return; }
+					if(!p) { if(!g_mapfails.load()) viol("null-without-map-failure", "empty: allocate(%zu) returned null although no map call failed", n); return; }
 					Blk b{p, std::max<size_t>(n, 1), stamp_of(me, i)}; stamp(b.p, b.n, b.s); lives[me].push_back(b);
 				}
 			}, TMO);
@@ -436,6 +447,7 @@ static void body(const vh::Lines &ls) {
 	auto h = vh::split(ls[0]);
 	std::string mode = h[0], pol = h.size() > 1 ? h[1] : "aligned";
 	int nt = h.size() > 2 ? atoi(h[2].c_str()) : 1;
+	try {
 	if(mode == "st") {
 		if(pol == "aligned") run_st<PolAligned>(ls);
 		else if(pol == "unaligned") run_st<PolUnaligned>(ls);
@@ -449,6 +461,7 @@ static void body(const vh::Lines &ls) {
 		else if(pol == "poison") run_mt<WithPoison<PolAligned>>(ls, nt);
 		else if(pol == "small") run_mt<PolSmall>(ls, nt);
 	}
+	} catch(vh::AssertStop &) { t_log = nullptr; t_held = 0; flush_viol(); throw; }
 	flush_viol();
 	printf("locks %s callbacks %s\n", g_locks.load() ? "yes" : "no", g_callbacks.load() ? "yes" : "no");
 }
